@@ -307,7 +307,7 @@ def execute(src, ncases):
         o["status"] = "compiler_panic"
         o["why"] = core.first_line_with(r.err + r.out, "panicked at")
         return o
-    if "Did not compile successfully" in r.out + r.err and core.BANNER not in r.err:
+    if core.compile_rejected(r):
         o["status"] = "rejected"
         o["why"] = compile_reason(r.out)
         return o
@@ -878,7 +878,7 @@ def doomed_job(item):
     r, _, _ = core.run_program({"main.ms": src}, typed=True, cpu=20)
     if r.cls in ("wall_timeout", "cpu_timeout", "spawn_error"):
         return {"name": name, "verdict": "inconclusive", "why": r.cls}
-    rejected = "Did not compile successfully" in r.out + r.err and core.BANNER not in r.err and "@@BEGIN" not in r.out
+    rejected = core.compile_rejected(r) and "@@BEGIN" not in r.out
     return {"name": name, "expr": e, "verdict": "rejected" if rejected else ("runs_then_fails" if r.cls != "ok" else "runs"),
             "src": src, "run": r.brief()}
 
